@@ -172,8 +172,12 @@ func c18Addr(c *harness.Check, cs addrCase) string {
 			if strings.HasPrefix(content, "@component(\"sub/zcomp\")") {
 				content = "<zc>;<zc>;<zc>;<zc>;<zc>;" // ... and the one that uses a component
 			}
+			content = strings.ReplaceAll(content, "{{ 1 + 1 }}END", "2END") // (the tail of the big files)
 			if ferr != nil || out != content {
-				failure = fmt.Sprintf("template %q renders %q / %v, its file holds %q", n, out, ferr, content)
+				failure = fmt.Sprintf("template %q renders %q / %v, its file holds %q", n, clip(out, 300), ferr, clip(content, 300))
+				if len(out) != len(content) {
+					failure += fmt.Sprintf(" (%d bytes rendered, %d expected)", len(out), len(content))
+				}
 				return
 			}
 		}
@@ -225,7 +229,7 @@ func c18Addr(c *harness.Check, cs addrCase) string {
 
 func TestC18_Addressing(t *testing.T) {
 	c := harness.New(t, "C18", "addressing",
-		"directory trees over names {a, b, idx, a.b, tw, names with a backslash, a blank or a percent sign} at depths {., sub, sub/deep, d<ext>/} with decoys whose names merely contain the extension (a<ext>.bak, a<ext>ig, n.txt inside a directory named x<ext>, a<ext><ext>, the bare extension) and garbage in decoys; template directory nested one or two levels and spelled t, t/, ./t, x/../t, t//, /t, t/sub/.., t/sub/../, t/., x/./../t (directory names may begin or end with a dot); extensions .tw, .tw.html, .html, .TW, .Tpl, .Tw.Html (letter case is part of an extension); one case in six leaves the directory, the extension, both or the whole configuration out (the documented defaults \"templates\" and \".tw.html\" apply). Oracle: the registered names (hook VerifNames) are exactly {relative path minus extension of every file whose name ends in the extension}; each renders its own content (files that use each other as components - chains, cycles, themselves - only have to load and be registered); decoys, unknown names and layouts (files with reserves) are reported as not found; EvaluateFile(path) == EvaluateString(content); and the Template loaded by the previous case still registers and renders what it did. Non-trivial: a nested directory, a decoy and a non-canonical spelling or a defaulted configuration. Distinct by hash.")
+		"directory trees over names {a, b, idx, a.b, tw, names with a backslash, a blank or a percent sign} at depths {., sub, sub/deep, d<ext>/} with decoys whose names merely contain the extension (a<ext>.bak, a<ext>ig, n.txt inside a directory named x<ext>, a<ext><ext>, the bare extension) and garbage in decoys, one file in ten of 4 KiB to 128 KiB with a {{ }} block at its very end; template directory nested one or two levels and spelled t, t/, ./t, x/../t, t//, /t, t/sub/.., t/sub/../, t/., x/./../t (directory names may begin or end with a dot); extensions .tw, .tw.html, .html, .TW, .Tpl, .Tw.Html (letter case is part of an extension); one case in six leaves the directory, the extension, both or the whole configuration out (the documented defaults \"templates\" and \".tw.html\" apply). Oracle: the registered names (hook VerifNames) are exactly {relative path minus extension of every file whose name ends in the extension}; each renders its own content (files that use each other as components - chains, cycles, themselves - only have to load and be registered); decoys, unknown names and layouts (files with reserves) are reported as not found; EvaluateFile(path) == EvaluateString(content); and the Template loaded by the previous case still registers and renders what it did. Non-trivial: a nested directory, a decoy and a non-canonical spelling or a defaulted configuration. Distinct by hash.")
 	defer c.Finish()
 	runRapid(t, c, 2000, 24000, func(rt *rapid.T) {
 		ext := rapid.SampledFrom([]string{".tw", ".tw.html", ".html", ".tw", ".TW", ".Tpl", ".Tw.Html"}).Draw(rt, "ext")
@@ -275,6 +279,10 @@ func TestC18_Addressing(t *testing.T) {
 			content := "FILE:" + sub + base
 			// a file is its bytes: a byte order mark, a carriage return, a final line break are text like any other
 			content = rapid.SampledFrom([]string{"", "", "\xef\xbb\xbf", "\r\n", "\n", " "}).Draw(rt, "leadingBytes") + content + rapid.SampledFrom([]string{"", "", "\r\n", "\n", "\xef\xbb\xbf"}).Draw(rt, "trailingBytes")
+			if rapid.IntRange(0, 9).Draw(rt, "bigFile") == 0 {
+				// a file is its bytes, however many: 4 KiB, 64 KiB (to the byte) and more
+				content += strings.Repeat("0123456789abcde\n", rapid.SampledFrom([]int{255, 256, 4095, 4096, 4097, 8192}).Draw(rt, "bigFileLines")) + "{{ 1 + 1 }}END"
+			}
 			if rapid.IntRange(0, 6).Draw(rt, "asLayout") == 0 {
 				content += " @reserve(\"r\")"
 			}
